@@ -321,12 +321,63 @@ def rule_r4(prog, res) -> None:
         res.violation("C03.R4", covp, covp.node, f"covariance is {ctxt}", key_extra="covariance-source")
 
 
+def _jackknife_orientation(prog, res, rj) -> None:
+    """the axis that is resampled is the patch axis: every caller hands over an array whose rows are patches (allocated
+    with the number of patches first) with an orientation flag that is — explicitly or by default — "patches are rows",
+    and for that flag the resampling takes N from axis 0 of the array AS GIVEN (no transpose on that path)"""
+    from .. import symx
+
+    flag = next((q for q in rj.param_names()[1:] if "row" in q or "patch" in q or "axis" in q), None)
+    if flag is None:
+        return
+    a_ = rj.node.args
+    defaults = dict(zip([q.arg for q in a_.args][len(a_.args) - len(a_.defaults) :], a_.defaults))
+    defaults.update({q.arg: d for q, d in zip(a_.kwonlyargs, a_.kw_defaults) if d is not None})
+    arr = rj.param_names()[0]
+    n = 0
+    for fi in prog.funcs:
+        for c in calls_in(fi):
+            if rj not in prog.resolve_call(fi, c).funcs() or not c.args:
+                continue
+            n += 1
+            res.touch(fi)
+            eff = kwarg(c, flag) or defaults.get(flag)
+            if not (isinstance(eff, ast.Constant) and isinstance(eff.value, bool)):
+                raise AnalysisError(f"C03.R5: orientation flag of the resample_jackknife call in {fi.short} is not a constant")
+            # orientation of the array handed over: first dimension of its allocation
+            a0 = c.args[0]
+            vals = [v for v in all_def_values(fi.node, a0.id) if v is not None] if isinstance(a0, ast.Name) else []
+            rows_are_patches = None
+            for v in vals:
+                if isinstance(v, ast.Call) and (dotted(v.func) or "").split(".")[-1] in ("empty", "zeros", "full") and v.args and isinstance(v.args[0], ast.Tuple) and v.args[0].elts:
+                    first = unparse(v.args[0].elts[0])
+                    rows_are_patches = ("catalog" in first or "patch" in first) and "bin" not in first
+            if rows_are_patches is None:
+                raise AnalysisError(f"C03.R5: orientation of the array handed to resample_jackknife in {fi.short} not recognised")
+            if rows_are_patches != eff.value:
+                res.violation("C03.R5", fi, c, f"{fi.qualname} hands resample_jackknife an array whose rows are {'patches' if rows_are_patches else 'bins'} with {flag}={eff.value}" + ("" if kwarg(c, flag) is not None else " (the default)") + ": the bins are resampled instead of the patches — wrong shape, or, when both numbers agree, silently wrong jackknife samples", key_extra=f"jackknife-orientation-{fi.qualname}")
+            else:
+                res.ok("C03.R5", res.site(fi, "orientation"), f"rows are patches, {flag}={eff.value}")
+    if n == 0:
+        raise AnalysisError("C03.R5: no caller of resample_jackknife found")
+    for val_ in (True,):
+        for p in symx.Explorer(prog, inline=symx.inline_private_helpers(prog)).run(rj, {flag: ast.Constant(val_)}):
+            if p.outcome != "return" or p.value is None:
+                continue
+            transposed = any((isinstance(y, ast.Attribute) and y.attr == "T" and isinstance(y.value, ast.Name) and y.value.id == arr) or (isinstance(y, ast.Call) and (dotted(y.func) or unparse(y.func)).split(".")[-1] in ("transpose", "swapaxes") and arr in unparse(y)) for y in ast.walk(p.value))
+            if transposed:
+                res.violation("C03.R5", rj, p.node or rj.node, f"with {flag}=True (rows are patches) resample_jackknife transposes its input: it resamples the bins instead of the patches", key_extra="jackknife-transposes-patch-rows")
+            else:
+                res.ok("C03.R5", res.site(rj, f"{flag}=True"), "the array is resampled along its rows as given", nontrivial=False)
+
+
 def rule_r5(prog, res) -> None:
     """histogram jackknife: the k-th repetition loses exactly patch k (tile / delete / reshape idiom)"""
     from ..norm import poly
 
     rj = prog.func("resample_jackknife")
     res.touch(rj)
+    _jackknife_orientation(prog, res, rj)
     fn = rj.node
     resolver = lambda n: (lambda vals: vals[0] if len(vals) == 1 else None)([v for v in all_def_values(fn, n) if v is not None])  # noqa: E731
     dele = [x for x in calls_in(rj) if (dotted(x.func) or "").endswith("delete")]
